@@ -5,6 +5,7 @@ import random
 
 from .common import *
 from .core import Ctx, Infra, casehash, log
+from .c06h import registry_clause, is_registry_replay
 
 
 @pipeline
@@ -14,6 +15,8 @@ def c06(ctx: Ctx):
         "harness realiser harness/c06.go: bodies encoded with encoding/json, url.Values and mime/multipart; each declared JSON-family entry accepts only bodies carrying its own marker property so the selected entry is observable through the verdict",
         "left open (excluded): absent Content-Type or a text body when */* is declared (declared, but the library has no decoder to apply)",
     ]
+    if is_registry_replay(ctx):
+        return registry_clause(ctx)
     cases = os.path.join(ctx.scratch, "cases.ndjson")
     if ctx.replay:
         write_ndjson(cases, [ctx.replay["violation"]["c"]])
@@ -36,3 +39,5 @@ def c06(ctx: Ctx):
                 "headers x required x which entry's marker the body carries, + empty body x required) + (json/form/multipart x 2 schemas x 8 "
                 "bodies x ExcludeReadOnlyValidations x per-property encoding) + text/plain; every case distinct and judged")
     ctx.validate("Trace_C06", "Trace_C06.cfg", logp, chunk_lines=60)
+    if not ctx.replay:
+        registry_clause(ctx)
